@@ -256,6 +256,9 @@ theorem html_wrapped (kids : List Node) :
   `p` = newlines, then blanks, then `<!doctype…>` (any letter case) up to its *first* `>`.
   `startsWithDoctype s` is the decidable reading of "there is such a split" (`startsWithDoctype_iff`). -/
 
+/-- the wrapper's tags are the constants `INVISIBLE_ROOT_TAG_START` / `INVISIBLE_ROOT_TAG_END` -/
+theorem wrapper_tags : wrapOpen = "<xxxblank>".toList ∧ wrapClose = "</xxxblank>".toList := by decide
+
 /-- **C02f, first case.** The text starts as `DOCTYPE_MATCH` reads it: the wrapper start tag goes directly after
     the matched prefix. -/
 theorem addStartTag_after_doctype (s p rest : Str) (h : DoctypeSplit s p rest) :
